@@ -809,3 +809,7 @@ def run(tier, seed):
     if rep.nontrivial == 0:
         rep.inconclusive.append("vacuous: no accepted sentence was reached")
     return core.finish(rep)
+
+
+def replay_file(v):
+    return (replay_h1 if v["signature"]["harness"] == "h1" else replay_h2)(v["replay"])
